@@ -7,5 +7,4 @@ CONSTANTS
   SimBigOnly = FALSE
 INIT Init
 NEXT Next
-VIEW View
 INVARIANTS LabelsInOrder NeverOutside ReversesExactly SizeSufficientAndMinimal
